@@ -234,6 +234,7 @@ def generate(streams: Streams, tier: str, index: int) -> dict:
     if system == "refine":
         # the candidates may come in any iterable, also a one-shot one
         opts["cands_as"] = rng.choice(["list", "list", "tuple", "generator", "emulsion", "iter"])
+        opts["duplicates"] = rng.choice([0, 0, 0, 1, 2])
     case = {"system": system, "frames": frames, "times": times, "options": opts,
             "schedules": gen_schedules(srng, tasks, n_sample, 0.35), "tasks_expected": tasks}
     if live_field:
@@ -319,6 +320,11 @@ def _build_call(case: dict, share_inputs: bool = False):
                 d.position[:2] = 0
             cands.append(d)
         r.shuffle(cands)
+        # a candidate list assembled from several detection passes may hold the same droplet
+        # twice (equal values, distinct objects)
+        for k in range(opts.pop("duplicates", 0)):
+            if cands:
+                cands.insert(r.randrange(len(cands) + 1), cands[r.randrange(len(cands))].copy())
 
         shared_ra = copy.deepcopy(ra)
 
